@@ -300,6 +300,24 @@ impl TypeChecker {
         }
     }
 
+    /// Does calling `method` on a value of type `base_ty` mutate the receiver?
+    fn method_mutates_receiver(&self, base_ty: &ResolvedType, method: &str) -> bool {
+        // (Mutating builtins — `append`, `pop`, `insert`, … — on an immutable list or dict are not reported: the
+        // `function_calls` codegen snapshot requires `numbers.append(4)` on an immutable `numbers` to type-check.)
+        match base_ty {
+            ResolvedType::Named(type_name) => {
+                let receiver = match self.lookup_type_info(type_name) {
+                    Some(TypeInfo::Model(m)) => m.methods.get(method).map(|mi| mi.receiver),
+                    Some(TypeInfo::Class(c)) => c.methods.get(method).map(|mi| mi.receiver),
+                    Some(TypeInfo::Newtype(n)) => n.methods.get(method).map(|mi| mi.receiver),
+                    _ => None,
+                };
+                matches!(receiver, Some(Some(Receiver::Mutable)))
+            }
+            _ => false,
+        }
+    }
+
     /// Type-check a method call (`base.method(args...)`) and return the method's return type.
     pub(in crate::frontend::typechecker::check_expr) fn check_method_call(
         &mut self,
@@ -316,6 +334,24 @@ impl TypeChecker {
                 CallArg::Positional(e) | CallArg::Named(_, e) => self.check_expr(e),
             })
             .collect();
+
+        // A `mut self` method of a user type needs a receiver variable declared `mut`: rustc would reject the borrow.
+        if self.method_mutates_receiver(&base_ty, method) {
+            let mut root = base;
+            while let Expr::Field(inner, _) | Expr::Index(inner, _) | Expr::Paren(inner) = &root.node {
+                root = inner;
+            }
+            if let Expr::Ident(name) = &root.node {
+                let immutable = self
+                    .symbols
+                    .lookup(name)
+                    .and_then(|id| self.symbols.get(id))
+                    .is_some_and(|sym| matches!(&sym.kind, SymbolKind::Variable(v) if !v.is_mutable));
+                if immutable {
+                    self.errors.push(errors::mutation_without_mut(name, span));
+                }
+            }
+        }
 
         // If the receiver type is Unknown, be permissive and do not error on methods.
         if matches!(base_ty, ResolvedType::Unknown) {
